@@ -52,19 +52,13 @@ impl ImdsClient {
         let mut headers = HashMap::new();
         headers.insert("Metadata".to_string(), "true".to_string());
 
-        hyper_client::get(
-            &url,
-            &headers,
-            self.key_keeper_shared_state
-                .get_current_key_guid()
-                .await
-                .unwrap_or(None),
-            self.key_keeper_shared_state
-                .get_current_key_value()
-                .await
-                .unwrap_or(None),
-            logger::write_warning,
-        )
+        // read the key id and the secret together: two separate reads can straddle a key rotation
+        let (key_guid, key) = self
+            .key_keeper_shared_state
+            .get_current_key_guid_and_value()
+            .await
+            .unwrap_or((None, None));
+        hyper_client::get(&url, &headers, key_guid, key, logger::write_warning)
         .await
     }
 }
